@@ -431,6 +431,7 @@ Section QuotientNoParams.
       rewrite Ha. simpl bind.
       pose proof (acc_entries_tsum _ _ _ _ Ha) as Hta.
       (* _c *)
+      destruct (Nat.eqb_spec (length cs) 1) as [Hone|_]; [lia|].
       set (Ec := product_table (remove_at idx fs) (remove_at idx mins) (remove_at idx maxs)
                    (remove_at idx tabs') psh).
       assert (Htabs'' : remove_at idx tabs' = remove_at idx tabs)
